@@ -116,6 +116,43 @@ theorem mapIdxCtx_outside (g : Nat → TypeId → Tok → Tok) (top : TypeId) (l
   · rename_i h
     exact (List.getElem?_eq_none (by omega)).symm
 
+/-! ### the non-strict versions (`withinNode`): the range may end just after the node's close token -/
+
+theorem splice_outside_le {α} (d S N : List α) (F T a b : Nat) (haF : a < F) (hFT : F ≤ T) (hTb : T ≤ b)
+    (hb : b ≤ d.length) (hN : N = d.take F ++ S ++ d.drop T) :
+    N.take (a + 1) = d.take (a + 1) ∧
+    N.drop (b + N.length - d.length) = d.drop b ∧
+    d.length ≤ b + N.length := by
+  have hlen : N.length = F + S.length + (d.length - T) := by
+    subst hN; simp; omega
+  refine ⟨?_, ?_, by omega⟩
+  · subst hN
+    rw [List.append_assoc, List.take_append_of_le_length (by simp; omega), List.take_take]
+    congr 1; omega
+  · have e : b + N.length - d.length = (d.take F ++ S).length + (b - T) := by
+      simp; omega
+    rw [e]; subst hN
+    rw [← List.drop_drop, List.drop_left, List.drop_drop]
+    congr 1; omega
+
+theorem pointwise_outside_le {α} (d N : List α) (F T a b : Nat) (haF : a < F) (hTb : T ≤ b)
+    (hlen : N.length = d.length) (hout : ∀ i, ¬ (F ≤ i ∧ i < T) → N[i]? = d[i]?) :
+    N.take (a + 1) = d.take (a + 1) ∧
+    N.drop (b + N.length - d.length) = d.drop b ∧
+    d.length ≤ b + N.length := by
+  refine ⟨?_, ?_, by omega⟩
+  · apply List.ext_getElem?
+    intro i
+    simp only [List.getElem?_take]
+    split
+    · exact hout i (by omega)
+    · rfl
+  · rw [hlen, Nat.add_sub_cancel]
+    apply List.ext_getElem?
+    intro i
+    simp only [List.getElem?_drop]
+    exact hout _ (by omega)
+
 /-! ### `content_between` on tokens (C12) -/
 
 /-- every node of a resolved path below its head is an element node -/
